@@ -25,9 +25,13 @@ SendHeadA  == CanSendHead(s)  /\ s' = DoSendHead(s)  /\ UNCHANGED cr
 DeleteHeadA == CanDeleteHead(s) /\ s' = DoDeleteHead(s) /\ UNCHANGED cr
 CloseA     == CanClose(s)     /\ s' = DoClose(s)     /\ UNCHANGED cr
 RestartA   == CanRestart(s)   /\ s' = DoRestart(s)   /\ UNCHANGED cr
+GovTxA     == CanGovTx(s)     /\ s' = DoGovTx(s)     /\ UNCHANGED cr
+CloseDownA == CanCloseDown(s) /\ s' = DoCloseDown(s) /\ UNCHANGED cr
+UpA        == CanUp(s)        /\ s' = DoUp(s)        /\ UNCHANGED cr
 CrashA     == CanCrash(s)     /\ s' = DoCrash(s)     /\ cr' = Append(cr, Where(s))
 
 Progress == TxBodyA \/ TxCommitA \/ SyncDoneA \/ SendHeadA \/ DeleteHeadA \/ CloseA \/ RestartA
+            \/ GovTxA \/ CloseDownA \/ UpA
 Next == Progress \/ CrashA
 
 Spec == Init /\ [][Next]_vars
@@ -37,7 +41,7 @@ O(x) == [db |-> x.db, sent |-> x.sent, queued |-> x.queued]
 
 Safety ==
     /\ C08_Once(O(s)) /\ C08_OnePoly(O(s)) /\ C08_Consistent(O(s)) /\ C08_RepeatSeen(O(s))
-    /\ C08_Loadable(O(s))
+    /\ C08_Loadable(O(s)) /\ C08_NoStale(O(s))
     /\ s.pc = "done" => (s.db.outbox = <<>> /\ s.db.res = "full" /\ C08_Delivered(O(s)))
 
 (* "strictly speaking everything is stored in the database, what we have here is a cache": outside
@@ -45,8 +49,8 @@ Safety ==
 MemMatchesDb == (s.mem.alive /\ s.mem.synced /\ ~s.tx.on) => (s.mem.has = s.db.pure /\ (s.mem.has => s.mem.rec = s.db.rec))
 
 (* in the order they were queued: first occurrences are checkin, commit, eval, acc, apol, result *)
-Rank(k) == CASE k = "checkin" -> 1 [] k = "commit" -> 2 [] k = "eval" -> 3 [] k = "old" -> 4 [] k = "eval2" -> 5
-                [] k = "acc" -> 6 [] k = "apol" -> 7 [] k = "result" -> 8
+Rank(k) == CASE k = "vote" -> 0 [] k = "bseen" -> 1 [] k = "checkin" -> 2 [] k = "commit" -> 3 [] k = "eval" -> 4
+                [] k = "old" -> 5 [] k = "eval2" -> 6 [] k = "acc" -> 7 [] k = "apol" -> 8 [] k = "result" -> 9
 InOrder == LET d == Dedup(s.sent, <<>>) IN \A i, j \in DOMAIN d : i < j => Rank(d[i].k) < Rank(d[j].k)
 
 (* every queued message is eventually delivered; the run completes *)
@@ -56,6 +60,6 @@ Drains == [](s.db.outbox # <<>> => <>(s.db.outbox = <<>>))
 (* listed before Safety in the cfg: prints the crash points of a state that violates Safety *)
 EmitBad == Safety \/ PrintT(<<"BAD", ToJson([cr |-> cr])>>)
 EmitDone == (~Emit) \/ s.pc # "done" \/ PrintT(<<"B", ToJson([cr |-> cr])>>)
-ASSUME PrintT(<<"CONST", ToJson([others |-> Others, phaseLen |-> PhaseLen, dealBlock |-> DealBlock, accBlock |-> AccBlock, lateCheckin |-> LateCheckin, overlap |-> Overlap, syncEvery |-> SyncEvery, syncOff |-> SyncOff, init |-> InitState])>>)
+ASSUME PrintT(<<"CONST", ToJson([others |-> Others, phaseLen |-> PhaseLen, dealBlock |-> DealBlock, accBlock |-> AccBlock, lateCheckin |-> LateCheckin, overlap |-> Overlap, gov |-> Gov, downUntil |-> DownUntil, syncEvery |-> SyncEvery, syncOff |-> SyncOff, init |-> InitState])>>)
 
 =============================================================================
